@@ -28,10 +28,11 @@ func init() {
 			{Name: "S-STREAM/plain", Weight: 3, Run: func(e *Env) { c07Run(e, false) }},
 			{Name: "S-STREAM/tls-shim", Weight: 1, Run: func(e *Env) { c07Run(e, true) }},
 			{Name: "S-STREAM/library-sender", Weight: 2, Run: c07SenderRun},
+			{Name: "S-STREAM/csm-exchange", Weight: 1, Run: c07CSMExchangeRun},
 		},
 		Quick:    150000,
 		Thorough: 8000000,
-		Require:  []string{"pool.recyclingOn", "monitor.dropsMessage", "handler.busyWhileQueueFull", "cut.insideHeader", "read.severalFrames", "read.singleByte", "oversize.headerSupplied", "read.lastBytesTogetherWithEOF", "frame.bodyLen=13+0", "frame.bodyLen=269+0", "frame.bodyLen=65805+0"},
+		Require:  []string{"pool.recyclingOn", "monitor.dropsMessage", "handler.busyWhileQueueFull", "cut.insideHeader", "read.severalFrames", "read.singleByte", "oversize.headerSupplied", "read.lastBytesTogetherWithEOF", "frame.bodyLen=13+0", "frame.bodyLen=269+0", "frame.bodyLen=65805+0", "csm.callbacksOverlap"},
 		Assume: []string{
 			"'header' of a frame = length nibble, extended length, code and token; the connection must be closed at the quiescent point after the last header byte of an oversize frame was supplied (the body is withheld by the simulator)",
 			"generated frames are either clearly within the maximum (total frame length <= max) or clearly above it (declared options+payload length > max), so the oracle does not depend on which of the two the implementation compares",
